@@ -784,6 +784,22 @@ where
         self.inner.shards.len()
     }
 
+    /// Number of shards whose lock (or whose in-flight table lock) is currently held (verification hook).
+    #[cfg(feature = "verif")]
+    pub fn verif_locked_shards(&self) -> usize {
+        self.inner
+            .shards
+            .iter()
+            .filter(|shard| {
+                shard.is_locked()
+                    || shard
+                        .try_read()
+                        .map(|shard| shard.inflights.is_locked())
+                        .unwrap_or(true)
+            })
+            .count()
+    }
+
     pub(crate) fn with_pipe(mut self, pipe: ArcPipe<E::Key, E::Value, E::Properties>) -> Self {
         self.pipe = pipe;
         self
